@@ -165,7 +165,8 @@ class C17(Prop):
         "initiator_spec", "initiator_settings", "window_split_invariant", "orf_stream_eq_spec", "orf_frame_declarative", "orf_numbering_and_order", "builtin_tables_ok",
         "standard_code_by_amino_acid", "tables_differ_as_documented", "read_never_faults", "read_never_faults_hyps", "write_never_faults", "write_never_faults_hyps", "read_ok_is_code", "read_ok_is_complete", "decode_digicodon_bounds", "decode_digicodon_inverse",
         "compare_spec", "process_orf_spec", "translation_out_of_alphabet_faults", "short_windows",
-        "reverse_strand_windows", "windowed_eq_full_length")]
+        "reverse_strand_windows", "windowed_eq_full_length", "workstate_options", "six_frame_translation", "complement_closed",
+        "short_sequences_ignored", "strand_leaves_idle")]
     claimed = True
     technique = ("Lean 4 proof: built-in tables regenerated from the tree = hand-pinned NCBI tables by `decide`; general theorems (any table, any "
                  "degeneracy matrix) that the triple loop computes the shared amino acid / all-initiators; ORF machine modelled and tied by exact "
